@@ -135,6 +135,9 @@ func (cache *H264Cache) getPalyloadType(payload []byte) (sps, pps, islice bool) 
 		off := 1
 		// 循环读取被封装的NAL
 		for {
+			if off+2 > len(payload) { // 聚合包被截断
+				return
+			}
 			// nal长度
 			nalSize := ((uint16(payload[off])) << 8) | uint16(payload[off+1])
 			if nalSize < 1 {
@@ -142,6 +145,9 @@ func (cache *H264Cache) getPalyloadType(payload []byte) (sps, pps, islice bool) 
 			}
 
 			off += 2
+			if off >= len(payload) { // 聚合包被截断
+				return
+			}
 			realNALU := byte(payload[off] & 0x1f)
 			cache.nalType(realNALU, &sps, &pps, &islice) // 当前NAL类型
 			off += int(nalSize)
